@@ -300,6 +300,8 @@ def coq_show(ctx, name, expr):
 # ------------------------------------------------------------------ main
 def sig_roundtrip(mesh, comps):
     m = mesh['meta']
+    if m.get('over_existing'):
+        return {'oracle': 'roundtrip', 'component': ','.join(comps), 'over_existing_file': True}
     return {'oracle': 'roundtrip', 'component': ','.join(comps),
             'unreferenced_nodes': m['n_unref'] > 0,
             'temperature_order': m['temp']}
@@ -336,7 +338,7 @@ def main(ctx):
         ctx.notes['translated_tables'] = {k: tables[k] for k in (
             'prism_perm_write', 'prism_write_codes', 'prism_perm_read', 'prism_read_type',
             'frac_digits', 'ignore_pats', 'ignore_src', 'rebind_by_id', 'merge_egroups',
-            'merge_initial', 'merge_ngroups')}
+            'merge_initial', 'merge_ngroups', 'msh_truncated')}
     except (c01_tables.TranslateError, SyntaxError, OSError) as e:
         tie_ok = False
         tables = None
@@ -392,6 +394,14 @@ def main(ctx):
     work = ctx.scratch / 'work'
     jobs = [{'op': 'write_read', 'id': i, 'dir': str(work / f'm{i}'), 'mesh': m, 'msh_only': True}
             for i, m in enumerate(meshes)]
+    # every second mesh is written with overwrite=True over an earlier export of a different mesh
+    for i, j in enumerate(jobs):
+        if i % 2 == 1:
+            pre = dict(meshes[i - 1])
+            j['pre_mesh'] = pre
+            meshes[i]['meta']['over_existing'] = True
+        else:
+            meshes[i]['meta']['over_existing'] = False
     t0 = time.time()
     res1 = cm.run_child(ctx, jobs, 'phase1')
     ctx.log(f'phase 1 (write + read back) on {len(meshes)} meshes: {time.time() - t0:.1f}s')
@@ -507,6 +517,9 @@ def main(ctx):
     impl_bad = 0
     for i, m in enumerate(meshes):
         r = res1[i]
+        mcase = {'mesh': m}
+        if jobs[i].get('pre_mesh') is not None:
+            mcase['pre_mesh'] = jobs[i]['pre_mesh']
         nontriv = sum(len(ids) for _, ids, _ in m['elems']) > 0
         ctx.case(['mesh', m['node_ids'], m['elems'], m.get('egroups'), m.get('sections'),
                   m.get('temp')], nontrivial=nontriv,
@@ -516,11 +529,12 @@ def main(ctx):
         n_eval += 1
         if 'write_error' in r or 'read' not in r:
             impl_bad += 1
-            ctx.violation('impl-violation', {'mesh': m}, 'write then read succeeds',
+            ctx.violation('impl-violation', mcase, 'write then read succeeds',
                           {k: r.get(k) for k in ('write_error', 'read_error')},
                           'C01_msh_roundtrip / oracle on implementation', found_input=True,
                           signature={'oracle': 'roundtrip', 'component': 'exception',
-                                     'error': (r.get('write_error') or r.get('read_error') or '')[:60]},
+                                     'error': re.sub(r'\d+', 'N', (r.get('write_error') or r.get('read_error') or ''))[:60],
+                                     'over_existing_file': bool(m['meta'].get('over_existing'))},
                           what='write or read-back raised on a well-formed mesh')
             continue
         # the caller's mesh is not modified by write(), and writing the same object a second
@@ -531,7 +545,7 @@ def main(ctx):
                 else 'the second write of the same FEMData differs from the first'
             l2 = (r.get('msh2') or '').split('\n')
             diff_at = next((k for k, (a, b) in enumerate(zip(r['lines'], l2)) if a != b), None)
-            ctx.violation('impl-violation', {'mesh': m},
+            ctx.violation('impl-violation', mcase,
                           'write() leaves the mesh as it was; a second write gives the same file',
                           {'mutated': r.get('mutated'), 'write2_error': r.get('write2_error'),
                            'first_differing_line': [r['lines'][diff_at], l2[diff_at]] if diff_at is not None else None},
@@ -543,7 +557,7 @@ def main(ctx):
         comps = roundtrip_diff(m, r['read'])
         if comps:
             impl_bad += 1
-            ctx.violation('impl-violation', {'mesh': m},
+            ctx.violation('impl-violation', mcase,
                           'read(write(mesh)) = mesh (maps by id, 13 significant digits)',
                           {'differs_in': comps, 'read_back': shown(r)},
                           'C01_msh_roundtrip / oracle on implementation', found_input=True,
@@ -663,6 +677,14 @@ def main(ctx):
                               'C01_same_name_blocks_merged', found_input=True,
                               signature={'oracle': 'format', 'variant': var, 'kind': 'cfg'},
                               what='per-run obligation on block merging fails')
+        if not tables.get('msh_truncated'):
+            reported = True
+            ctx.violation('proof-broken', {'msh_truncated': False},
+                          'the first write to <name>.msh truncates the file on every path',
+                          'the file is opened for appending: an existing .msh is kept in front',
+                          'C01_msh_file_truncated', found_input=impl_bad > 0,
+                          signature={'oracle': 'roundtrip', 'over_existing_file': True, 'kind': 'cfg'},
+                          what='per-run obligation on the effect program of write(fistr) fails')
         if not reported:
             ctx.violation('proof-broken', {'log': ctx.notes.get('cfg_build_log_tail', '')[-600:]},
                           'PropsCfg.v checks', 'does not check', 'PropsCfg.v', found_input=False,
@@ -698,8 +720,11 @@ def replay(path):
         return 1 if bad else 0
     if 'mesh' in c:
         m = c['mesh']
-        res = cm.run_child(ctx, [{'op': 'write_read', 'id': 0, 'dir': str(work / 'm'), 'mesh': m,
-                                  'msh_only': True}], 'replay')[0]
+        job = {'op': 'write_read', 'id': 0, 'dir': str(work / 'm'), 'mesh': m, 'msh_only': True}
+        if c.get('pre_mesh') is not None:
+            job['pre_mesh'] = c['pre_mesh']
+            print('(written with overwrite=True over an earlier export of another mesh)')
+        res = cm.run_child(ctx, [job], 'replay')[0]
         print('implementation text:', json.dumps(res.get('msh', res.get('write_error'))))
         print('implementation read:', json.dumps(cm.show_read(res['read']) if 'read' in res else res.get('read_error')))
         model = coq_show(ctx, 'Replay', f'show_lines (write_msh {cm.coq_mesh(m)})')
